@@ -48,6 +48,15 @@ func c05World(t *testing.T, run *h.Run) (int64, int64) {
 		mk("S3-timed-auto-restart", "auto", &w.Alpha{PodDev: []string{"restart:1", "restart:3"}}),
 		mk("S3-timed-auto-commands", "auto", &w.Alpha{Kubectl: []string{"canary-pause", "canary-unpause", "canary-validate", "canary-fail"}}),
 		mk("S3-timed-fail-overtakes", "auto", &w.Alpha{MidCmds: []string{"canary-fail"}}),
+		// a failed canary whose rollback is interrupted between its two writes (the spec update is rejected or lost), or whose
+		// template is re-applied afterwards: whatever the replica-set syncs do in between, it is not promoted by time
+		func() scOpt {
+			o := mk("S3-timed-fail-rollback-faults", "auto", &w.Alpha{Kubectl: []string{"canary-fail"}, Templates: []string{"B"},
+				EDSFaults: []string{"reject:update ExtendedDaemonSet ns/foo$", "lost:update ExtendedDaemonSet ns/foo$"}})
+			o.alpha.OnlyERS = nil // the former canary is reconciled in every role
+			o.budget = 2
+			return o
+		}(),
 		mk("S3-timed-manual", "manual", &w.Alpha{Kubectl: []string{"canary-validate", "canary-pause"}}),
 	}
 	var states, trans int64
